@@ -621,6 +621,12 @@ def govExecAll (wall : Nat) (s : State) (msgs : List Msg) : State × Bool :=
     | .error _ => (s, false)
   else (s, false)
 
+/-- `MsgSubmitProposal` accepts the proposal at all: every message passes its stateless validation and names the gov
+module account as its only signer (otherwise the proposal never exists and nothing is voted on) -/
+def govSubmitOK (s : State) (msgs : List Msg) : Bool :=
+  msgs.all (fun m => decide (m.signer = some Mgov)) &&
+  (match Msg.validateBasicList s msgs with | .ok _ => true | .error _ => false)
+
 /-- one statement of the enterprise `BeginBlocker` by the name of the keeper method it calls -/
 def beginStep (s : State) (name : String) : M State :=
   match name with
